@@ -4,7 +4,7 @@
    regenerates from util/pcqueue.hh.  P producers, C consumers, capacity k, item lists and schedules are all
    universally quantified; `reachable k items counts s` = some schedule leads from the constructor's state to s. *)
 From Coq Require Import List Arith.
-From Kenlm Require Import C17.PCQueueOps Gen.PCQueueProg C17.PCQueueModel C17.PCQueueProofs.
+From Kenlm Require Import C17.PCQueueOps Gen.PCQueueProg C17.PCQueueModel C17.PCQueueProofs C17.PoolModel C17.PoolProofs.
 Import ListNotations.
 
 (* The source still performs exactly the expected synchronisation operations, in the expected order, on the
@@ -58,3 +58,34 @@ Theorem C17_all_delivered : forall k items counts s, reachable k items counts s 
   map snd (loaded s) = map snd (hist s) /\ (forall i o, nth_error items i = Some o -> stored_by i s = o) /\
   length (hist s) = sum_len items.
 Proof. exact all_delivered_finished. Qed.
+
+(* PCQueue refines the atomic bounded FIFO: with absq = values stored and not yet loaded, a producer's store appends
+   its value, a consumer's load removes the head (and that is the value its Consume call returns), every other
+   operation leaves absq alone, and absq never holds more than k values. *)
+Theorem C17_pcqueue_refines_atomic : forall k items counts s t s', reachable k items counts s -> step s t = Some s' ->
+  length (absq s) <= k /\
+  (   (exists i v, t = P i /\ absq s' = absq s ++ [v] /\ stored_by i s' = stored_by i s ++ [v])
+   \/ (exists j v, t = C j /\ absq s = v :: absq s' /\ consumed_by j s' = consumed_by j s ++ [v])
+   \/ (absq s' = absq s /\ hist s' = hist s /\ loaded s' = loaded s)).
+Proof. exact refines_atomic. Qed.
+
+(* ---- util::ThreadPool over the atomic bounded FIFO (C17/PoolModel.v): any queue length >= 1, any number of
+   workers >= 1, any request list, any schedule ---- *)
+
+(* at every moment every request is in exactly one place (not yet submitted / queued / in a worker's hands / handled) *)
+Theorem C17_thread_pool_exactly_once : forall cap w reqs, 1 <= cap -> 1 <= w -> forall s, pool_reachable cap w reqs s -> forall r,
+  cnt (did r) (handled s) + cnt (holds r) (pws s) + cnt (is_req r) (pq s) + cnt (is_req r) (todo s) = cnt (Nat.eqb r) reqs.
+Proof. exact pool_exactly_once. Qed.
+
+(* ... so when the destructor has finished, every request was handled exactly as often as it was submitted *)
+Theorem C17_thread_pool : forall cap w reqs, 1 <= cap -> 1 <= w -> forall s, pool_reachable cap w reqs s -> pool_finished s = true ->
+  forall r, cnt (did r) (handled s) = cnt (Nat.eqb r) reqs.
+Proof. exact pool_all_handled. Qed.
+
+(* the destructor (one poison per worker, then join) cannot hang, and every schedule is finite *)
+Theorem C17_thread_pool_no_deadlock : forall cap w reqs, 1 <= cap -> 1 <= w ->
+  forall s, pool_reachable cap w reqs s -> pool_finished s = false -> exists t s', pool_step cap s t = Some s'.
+Proof. exact pool_no_deadlock. Qed.
+
+Theorem C17_thread_pool_progress : forall cap s t s', pool_step cap s t = Some s' -> pool_measure s' < pool_measure s.
+Proof. exact pool_progress. Qed.
